@@ -27,6 +27,7 @@ FS = ["id", "inc", "dbl"]
 class Gen:
     mixed_api = 0.0   # probability that a request / stream of a command script uses the capability API
     p_burst = float(os.environ.get("GEN_PBURST", "0.012"))   # probability that a script step is a burst of 33-44 outputs
+    p_gchan = float(os.environ.get("GEN_PGCH", "0.05"))   # probability that a script step uses a case-wide channel
     p_try = float(os.environ.get("GEN_PTRY", "0.08"))   # probability of a non-blocking read when a stream / channel is at hand
     p_chan = float(os.environ.get("GEN_PCH", "0.10"))   # probability that a script step is a task-to-task channel step
     p_then_stream = float(os.environ.get("GEN_PTS", "0.12"))   # probability that a chain has a then_stream stage
@@ -130,7 +131,11 @@ class Gen:
             opts.append("next")
         if rxs:
             opts += ["recv", "recv"]
+        if self.family != "legacy" and r.random() < 2 * self.p_gchan:
+            opts += ["grecv"]
         k = r.choice(opts)
+        if k == "grecv":
+            return {"k": "grecv", "g": r.choice([1, 1, 2])}
         if k == "recv":
             return {"k": "recv", "c": r.choice(list(rxs))}
         if k == "req":
@@ -200,6 +205,17 @@ class Gen:
                 code.append({"op": "abortc", "id": r.choice(self.cmd_ids[-4:])})
                 continue
             if self.family == "legacy" and k in ("abort", "joinh"):
+                continue
+            if self.family != "legacy" and r.random() < self.p_gchan:
+                # a channel that belongs to the case (a sender kept in the app's model): any task of any command
+                g = r.choice([1, 1, 2])
+                if r.random() < 0.6:
+                    code.append({"op": "gsend", "g": g, "src": self.src()})
+                else:
+                    dst = r.randint(1, 4)
+                    code.append({"op": "grecv", "g": g, "dst": dst})
+                    if r.random() < 0.7:
+                        code.append({"op": "emit", "tag": self.tag(), "src": {"r": dst}})
                 continue
             if r.random() < self.p_burst and not self.bursts:
                 # a burst: dozens of outputs from one poll (queue limits, batching and back-pressure in
